@@ -361,7 +361,21 @@ fn me() -> std::path::PathBuf {
 fn run_case(seed: u64, case: u64, crash: Option<usize>, sigkill: bool, hook: Option<usize>) -> CaseResult {
     let mut rng = Rng::fork(seed, case);
     let plan = gen_plan(&mut rng);
-    let dir = tempfile::tempdir().expect("tempdir");
+    let tmp = tempfile::tempdir().expect("tempdir");
+    let (dirpath, _guard) = if std::env::var("VH_KEEP").is_ok() {
+        let p = tmp.keep();
+        eprintln!("keeping {}", p.display());
+        (p, None)
+    } else {
+        (tmp.path().to_path_buf(), Some(tmp))
+    };
+    struct D(std::path::PathBuf);
+    impl D {
+        fn path(&self) -> &std::path::Path {
+            &self.0
+        }
+    }
+    let dir = D(dirpath);
     let db = dir.path().join("db.sqlite");
     let planp = dir.path().join("plan.json");
     let journalp = dir.path().join("journal");
@@ -478,15 +492,17 @@ fn run_case(seed: u64, case: u64, crash: Option<usize>, sigkill: bool, hook: Opt
     }
 
     // Journal cross-checks (durability of returned calls).
-    let mut pruned_later = false;
+    // A returned publish must be durable. Its operation may only be missing again if a stored
+    // prune point of the node's own log explains it (a prune step that was still in flight at the
+    // crash has already stored its prune-flagged operation before anything is deleted).
+    let me_hex = key_of(&plan.key).verifying_key().to_hex();
+    let own_prune_stored = rows.iter().any(|r| r.author == me_hex && r.log == lid && r.prune);
     for line in journal.lines().rev() {
         let parts: Vec<&str> = line.split_whitespace().collect();
         match parts.as_slice() {
-            ["prune", ..] => pruned_later = true,
-            ["import", ..] => pruned_later = true, // imported prune-flagged ops only touch foreign logs, keep conservative
             ["publish", _, h] => {
-                if !pruned_later && !rows.iter().any(|r| &r.hash == h) {
-                    res.violations.push(("C15:returned-publish-not-stored".into(), format!("publish of {h} returned before the crash but the operation is not in the database"), witness(json!({"journal": journal}))));
+                if !own_prune_stored && !rows.iter().any(|r| &r.hash == h) {
+                    res.violations.push(("C15:returned-publish-not-stored".into(), format!("publish of {h} returned before the crash but the operation is not in the database (and no prune point of the own log is stored)"), witness(json!({"journal": journal}))));
                 }
             }
             ["ack", _, author, seq] => {
@@ -500,6 +516,7 @@ fn run_case(seed: u64, case: u64, crash: Option<usize>, sigkill: bool, hook: Opt
     }
 
     // ---- second child: replay from the frontier ----------------------------------------------
+    let replay_err = std::fs::File::create(dir.path().join("replay.stderr")).expect("stderr file");
     let st = Command::new(me())
         .arg("c15-replay")
         .arg(format!("db={}", db.display()))
@@ -507,15 +524,37 @@ fn run_case(seed: u64, case: u64, crash: Option<usize>, sigkill: bool, hook: Opt
         .arg(format!("key={}", plan.key))
         .arg(format!("result={}", resultp.display()))
         .stdout(Stdio::null())
-        .stderr(Stdio::null())
-        .status();
+        .stderr(Stdio::from(replay_err))
+        .spawn()
+        .and_then(|mut ch| {
+            // If the replay child is still running after 100 s, take a stack dump of all its threads
+            // (diagnostics for a genuine stall; the verdict is still taken from what it reports).
+            let t0 = Instant::now();
+            loop {
+                if let Some(st) = ch.try_wait()? {
+                    return Ok(st);
+                }
+                if t0.elapsed() > Duration::from_secs(100) {
+                    let dump = format!("/tmp/c15-stall-seed{seed}-case{case}-{}.txt", std::process::id());
+                    let _ = Command::new("gdb")
+                        .args(["-p", &ch.id().to_string(), "-batch", "-ex", "thread apply all bt 25"])
+                        .stdout(std::fs::File::create(&dump).map(Stdio::from).unwrap_or(Stdio::null()))
+                        .stderr(Stdio::null())
+                        .status();
+                    return ch.wait();
+                }
+                std::thread::sleep(Duration::from_millis(20));
+            }
+        });
     let out: Option<ReplayOut> = std::fs::read_to_string(&resultp).ok().and_then(|s| serde_json::from_str(&s).ok());
     let Some(out) = out else {
-        res.inconclusive = Some(format!("case {case}: replay child produced no result ({st:?})"));
+        let err = std::fs::read_to_string(dir.path().join("replay.stderr")).unwrap_or_default();
+        let tail: String = err.lines().filter(|l| l.contains("panicked") || l.contains("rror")).take(3).collect::<Vec<_>>().join(" | ");
+        res.inconclusive = Some(format!("case {case}: replay child produced no result ({st:?}): {tail}"));
         return res;
     };
     if !out.sentinel_seen {
-        res.inconclusive = Some(format!("case {case}: replay sentinel not observed within the watchdog (delivered {} so far)", out.delivered.len()));
+        res.inconclusive = Some(format!("case {case} (crash_after={crash:?}, hook={hook:?}, sigkill={sigkill}): replay sentinel not observed within the watchdog (delivered {} so far, replay_started={:?}, replay_ended={}, errors={:?})", out.delivered.len(), out.replay_started_total, out.replay_ended, out.failed));
         return res;
     }
     let delivered_hashes: Vec<&String> = out.delivered.iter().map(|d| &d.0).collect();
@@ -563,6 +602,18 @@ pub fn run(args: &Args) {
          a body; distinct by (history, crash point).",
         5,
     );
+    if let Some(c) = args.param("case") {
+        // Replay one case: `vh-node C15 --seed S case=7 [crash=K | hook=N | sigkill=1]`
+        let r = run_case(
+            args.seed,
+            c.parse().expect("case"),
+            args.param("crash").and_then(|s| s.parse().ok()),
+            args.param("sigkill").is_some(),
+            args.param("hook").and_then(|s| s.parse().ok()),
+        );
+        println!("violations: {:#?}\ninconclusive: {:?}\nsample: {}", r.violations, r.inconclusive, r.sample);
+        return;
+    }
     let histories = args.n(12, 150);
     let sigkills = args.n(30, 800);
     // Work list: (case id, crash point, sigkill)
